@@ -205,6 +205,31 @@ def gen():
         return 'Definition gen_plus_slice (n : Z) : Z * Z * Z :=\n  %s.\nDefinition gen_plus_symbol : Z := %d.\n' % (trip.pop(), ord('+'))
     emit(defs, 'gen_plus_slice', plus_slice)
     emit(defs, 'gen_plus_line', lambda: K1(fq_validate(), dict(ol_ren, entry_number='j')).zdef('gen_plus_line', ['j', 'n'], assign_to(fq_validate(), 'line_number')))
+    def plus_precedence():
+        # which violation is reported when a buffer has both a misplaced header and a missing '+':
+        #   header_error = None; try: super()._validate(...) except FormatException as e: header_error = e
+        #   if <plus violated>: ...; if header_error is None or line_number < header_error.line_number: raise <plus>
+        #   if header_error is not None: raise header_error
+        f = fq_validate()
+        body = [st for st in f.body if not (isinstance(st, ast.Expr) and isinstance(st.value, ast.Constant))]
+        tries = [st for st in body if isinstance(st, ast.Try)]
+        if not (len(tries) == 1 and len(tries[0].body) == 1 and src_of(tries[0].body[0]).replace(' ', '') == 'super()._validate(data,new_lines)'
+                and len(tries[0].handlers) == 1 and src_of(tries[0].handlers[0].type) == 'FormatException'
+                and [src_of(x) for x in tries[0].handlers[0].body] == ['header_error = %s' % tries[0].handlers[0].name]
+                and not tries[0].orelse and not tries[0].finalbody):
+            raise Unsupported('header validation is not captured as header_error by a single try/except FormatException')
+        last = body[-1]
+        if not (isinstance(last, ast.If) and src_of(last.test) == 'header_error is not None' and src_of(last.body[0]) == 'raise header_error' and not last.orelse):
+            raise Unsupported('the header error is not re-raised last')
+        guards = [n for n in ast.walk(f) if isinstance(n, ast.If) and isinstance(n.body[0], ast.Raise) and 'header_error' in src_of(n.test) and n is not last]
+        if len(guards) != 1:
+            raise Unsupported('precedence guard not found')
+        t = guards[0].test
+        if not (isinstance(t, ast.BoolOp) and isinstance(t.op, ast.Or) and len(t.values) == 2 and src_of(t.values[0]) == 'header_error is None'):
+            raise Unsupported('precedence guard is not `header_error is None or <comparison>`')
+        k = K1(f, {'header_error.line_number': 'header_line', 'line_number': 'plus_line'})
+        return k.bdef('gen_plus_wins', ['plus_line', 'header_line'], t.values[1])
+    emit(defs, 'gen_plus_wins', plus_precedence)
 
     # ---- DelimitedBuffer.from_raw_buffer: cut after the last line break
     td = parse('bionumpy/io/delimited_buffers.py')
